@@ -259,7 +259,11 @@ def explore_program(res: Result, M, files, pi: int, rate, fake: FakeRandom) -> N
     ndraw = len(points)
     nframes = len(rec.order)
     if rate and rate >= 2 and ndraw == 0:
-        raise HarnessError(f"sample_rate={rate} but the RNG seam was never consulted (seam lost)")
+        # either the seam is lost or the tracer stopped drawing: in both cases every call was traced although 1/N was asked for
+        res.violate(Violation(ID, "frequency", "no-draw-at-all", {"program": name, "pi": pi, "rate": rate, "answers": []}, f"{name} rate={rate}: the sampling RNG was never consulted and {len(col.traces)} of {nframes} calls were traced"))
+        return
+    if rate and rate >= 2 and ndraw < nframes and plain:
+        res.violate(Violation(ID, "frequency", "fewer-draws-than-calls", {"program": name, "pi": pi, "rate": rate, "answers": list(answers)}, f"{name} rate={rate}: {nframes} fresh calls but only {ndraw} sampling draws (some calls bypass sampling)"))
     if (not rate or rate == 1) and ndraw and rate is None:
         raise HarnessError("RNG consulted although no sample rate is set")
     full = ndraw <= (8 if THOROUGH[0] else 6)
@@ -358,6 +362,72 @@ def load(ctx: Ctx):
     return M, {M.__file__}
 
 
+def sessions_and_cli(ctx: Ctx) -> Result:
+    """(1) two consecutive tracing blocks that share one logger object, every ordered pair of rates: the second block
+    obeys ITS rate; (2) `monkeytype run` with a Config that sets a sample rate: the rate reaches the tracer."""
+    import io
+
+    from monkeytype import tracing
+
+    res = Result()
+    M, files = load(ctx)
+    fake = FakeRandom()
+    expr = "(M.f(1), M.f('a'), M.g([1], y=2), M.f(2.5))"
+    flt = lambda code: code.co_filename in files  # noqa: E731 - ONE filter object for all blocks (as a Config would hand out)
+    for r1 in RATES:
+        for r2 in RATES:
+            col = c02.Collector()
+            counts = []
+            for rate, skip in ((r1, True), (r2, True)):
+                fake.begin([], skip)           # every draw answers "skip"
+                old = tracing.random
+                tracing.random = fake  # type: ignore[assignment]
+                n0 = len(col.traces)
+                try:
+                    with tracing.trace_calls(col, 0, flt, rate):
+                        eval(expr, {"M": M})
+                finally:
+                    tracing.random = old  # type: ignore[assignment]
+                counts.append(len(col.traces) - n0)
+            res.states += 1
+            res.transitions += 2
+            res.evaluations += 1
+            res.validated += 1
+            want2 = 4 if r2 in (None, 1) else 0   # all draws answer skip (for rate 1 the only answer, 0, samples)
+            if counts[1] != want2:
+                res.violate(Violation(ID, "frequency", "rate-of-earlier-session-sticks", {"program": "sessions", "pi": -1, "rate": [r1, r2], "answers": "skip-all"}, f"block 1 with rate {r1}, block 2 with rate {r2} on the same logger, every draw answering 'skip': block 2 logged {counts[1]} of 4 calls, expected {want2}"))
+    res.oblige("sessions-sharing-a-logger", True)
+    # CLI: monkeytype run with Config.sample_rate
+    import mcfg
+    from monkeytype import cli
+
+    d = ctx.tmp / "c18cli"
+    d.mkdir(exist_ok=True)
+    script = d / "c18_script.py"
+    modname = M.__name__
+    script.write_text(f"import {modname} as M\nfor i in range(3):\n    M.f(i)\n    M.g([i])\n")
+    for rate, skip, want_rows in ((None, True, True), (2, True, False), (2, False, True), (100, True, False)):
+        db = str(d / f"run_{rate}_{skip}.sqlite3")
+        mcfg.reset(db=db, filter=lambda code: code.co_filename in files, sample_rate=rate)
+        fake.begin([], skip)
+        old = tracing.random
+        tracing.random = fake  # type: ignore[assignment]
+        try:
+            cli.main(["-c", "mcfg:CONFIG", "run", str(script)], io.StringIO(), io.StringIO())
+        finally:
+            tracing.random = old  # type: ignore[assignment]
+        st = mcfg.CONFIG.trace_store()
+        nrows = sum(len(st.filter(m)) for m in st.list_modules())
+        res.states += 1
+        res.transitions += 1
+        res.evaluations += 1
+        res.validated += 1
+        if (nrows > 0) != want_rows:
+            res.violate(Violation(ID, "frequency", "cli-run-ignores-sample-rate", {"program": "cli-run", "pi": -2, "rate": rate, "answers": "skip-all" if skip else "sample-all"}, f"`monkeytype run` with Config.sample_rate()={rate} and every draw answering {'skip' if skip else 'sample'}: {nrows} rows stored"))
+    res.oblige("cli-run-with-sample-rate", True)
+    return res
+
+
 def run(ctx: Ctx) -> Result:
     jobs = [(pi, rate) for pi in range(len(PROGRAMS)) for rate in RATES]
 
@@ -371,7 +441,10 @@ def run(ctx: Ctx) -> Result:
         return res
 
     res = run_shards(ctx, work, jobs)
+    res.merge(sessions_and_cli(ctx))
     res.obligations.setdefault("some-vector-skips-a-call-another-traces", False)
+    res.obligations.setdefault("sessions-sharing-a-logger", False)
+    res.obligations.setdefault("cli-run-with-sample-rate", False)
     res.bounds["complete_up_to_draws"] = 8 if ctx.tier == "thorough" else 6
     res.bounds["deviation_bound_beyond"] = 5 if ctx.tier == "thorough" else 3
     return res
@@ -381,6 +454,8 @@ def replay(case: Dict[str, Any], ctx: Ctx) -> List[Violation]:
     res = Result()
     M, files = load(ctx)
     fake = FakeRandom()
+    if case.get("pi", 0) < 0:
+        return sessions_and_cli(ctx).violations
     if case["answers"] == "expectation" or case.get("answers") is None:
         explore_program(res, M, files, case["pi"], case["rate"], fake)
         return [v for v in res.violations if v.kind == "frequency"] or res.violations
